@@ -58,6 +58,7 @@ fragment TypeRef on __Type { kind name ofType { kind name ofType { kind name ofT
 var stdIntrospection2 = strings.Replace(strings.Replace(stdIntrospection, "directives { name description locations", "directives { name description isRepeatable locations", 1), "fragment FullType on __Type { kind name description", "fragment FullType on __Type { kind name description specifiedByURL", 1)
 
 type igen struct {
+	frags []string
 	r    *rand.Rand
 	s    *ast.Schema
 	vars []string
@@ -130,8 +131,14 @@ func (g *igen) sel(tn string, depth int) string {
 
 func (g *igen) selOrFrag(tn string, depth int) string {
 	body := g.sel(tn, depth)
-	if g.r.Intn(6) == 0 {
+	switch g.r.Intn(8) {
+	case 0:
 		return "{ ... on " + tn + " " + body + " }"
+	case 1:
+		// a named fragment (arguments inside it, also fed by variables)
+		name := fmt.Sprintf("IF%d", len(g.frags))
+		g.frags = append(g.frags, "fragment "+name+" on "+tn+" "+body)
+		return "{ ..." + name + " }"
 	}
 	return body
 }
@@ -167,16 +174,26 @@ func genIntrospectionOp(r *rand.Rand, s *ast.Schema) *gen.Op {
 		default:
 			tn := pick(r, names)
 			v := fmt.Sprintf("n%d", len(g.vars))
-			g.vars = append(g.vars, "$"+v+": String!")
-			g.vals[v] = tn
+			if r.Intn(3) == 0 {
+				// the type name comes from the variable's default
+				g.vars = append(g.vars, fmt.Sprintf("$%s: String! = %q", v, tn))
+			} else {
+				g.vars = append(g.vars, "$"+v+": String!")
+				g.vals[v] = tn
+			}
 			roots = append(roots, key+"__type(name: $"+v+") "+g.sel("__Type", 3))
 		}
+	}
+	rootSel := "{ " + strings.Join(roots, " ") + " }"
+	if r.Intn(4) == 0 {
+		g.frags = append(g.frags, "fragment Root on "+s.Query.Name+" "+rootSel)
+		rootSel = "{ ...Root }"
 	}
 	head := "query"
 	if len(g.vars) > 0 {
 		head += "(" + strings.Join(g.vars, ", ") + ")"
 	}
-	op := &gen.Op{Query: head + " { " + strings.Join(roots, " ") + " }"}
+	op := &gen.Op{Query: head + " " + rootSel + "\n" + strings.Join(g.frags, "\n")}
 	if len(g.vals) > 0 {
 		op.Variables = g.vals
 	}
